@@ -20,7 +20,7 @@ var encMenus = []tyMenu{
 	{"uint32", []any{map[string]any{}}, []string{"0", "4294967295"}, nil, true},
 	{"uint64", []any{map[string]any{}}, []string{"0", "18446744073709551615", "9007199254740993", "42"}, nil, true},
 	{"decimal64:2", []any{map[string]any{}}, []string{"1.5", "-0.25", "92233720368547758.07", "3", "-92233720368547758.08"}, nil, true},
-	{"string", []any{map[string]any{}}, []string{"", "x", "a b", "é€", "quote\"back\\slash", "<&>'", "tab\there", "line\nbreak", "  lead", "trail  ", "{\"j\":1}", " "}, nil, false},
+	{"string", []any{map[string]any{}}, []string{"", "x", "a b", "é€", "quote\"back\\slash", "<&>'", "tab\there", "line\nbreak", "  lead", "trail  ", "{\"j\":1}", "\u2028", "del\x7f", "\U000F0000z", "\u200bzw", "\U0001F600"}, nil, false},
 	{"string", lvLength([2]string{"1", "8"}), []string{"a", "key one", "k<2>", "é"}, nil, true},
 	{"boolean", []any{map[string]any{}}, []string{"true", "false"}, nil, true},
 	{"enumeration:a:b:c-d", []any{map[string]any{}}, []string{"a", "b", "c-d"}, nil, true},
@@ -46,6 +46,10 @@ func genYEncCase(r *Rng, tier string) Case {
 		if (k == "list" || k == "leaf-list") && r.Chance(40) {
 			ref.node["ordby"] = "user"
 		}
+	}
+	// several modules: some nodes are augmented in by (or defined at the top of) modules a and b
+	if r.Chance(60) {
+		assignMods(r, top, 0, nil, pick(r, []int{12, 25, 45}))
 	}
 	data := map[string]any{"n": "root", "kids": genDataKids(r, top, pick(r, []int{55, 80, 95}))}
 	dropEmptyMulti(data)
@@ -154,7 +158,7 @@ func canonJSON(v any) string {
 }
 
 func runYEnc(c Case) string {
-	ms, err := compileTexts(nil, idmModule, renderEncSchema(carr(c, "top")))
+	ms, err := compileTexts(nil, append([]string{idmModule}, renderEncModules(carr(c, "top"))...)...)
 	if err != nil {
 		return "compile-err " + err.Error()
 	}
